@@ -594,6 +594,7 @@ type GenOpts struct {
 	Prefix           string // prefix of the main module ("" = its name, m)
 	ModName          string // name of the main module ("" = m)
 	ListsOfAll       bool   // leaf-lists of bits and binary too (a leaf-list of empty is not legal)
+	HostileEnumNames bool   // some enumerations have names holding / , + % = and a space
 	NumericEnumNames bool   // some enumerations name their values "10", "100" ...
 	Presence         bool
 	Wraps            bool // write some leaf types through a typedef, as a union member or as a leafref to a sibling
@@ -659,6 +660,11 @@ func (g *gen) typ(allowed []string) *SType {
 			// names that read like numbers, and like the values of other names
 			t.Enums = []string{"10", "100", "fast", "2"}[:2+g.r.Intn(3)]
 			t.EnumID = []int{1, 2, 10, 100}[:len(t.Enums)]
+		}
+		if g.o.HostileEnumNames && g.r.Intn(2) == 0 {
+			// an enum name is any YANG string: names holding the characters a path gives a meaning to
+			t.Enums = []string{"10/100", "1000,full", "auto+fallback", "100%", "a=b c"}[:2+g.r.Intn(4)]
+			t.EnumID = nil
 		}
 	case "bits":
 		t.Bits = []string{"b0", "b1", "b2", "b3"}[:2+g.r.Intn(3)]
@@ -981,7 +987,7 @@ func markModule(n *SNode, m string) {
 
 // yqEnum quotes an enum name that a bare spelling would turn into a number
 func yqEnum(name string) string {
-	if name != "" && name[0] >= '0' && name[0] <= '9' {
+	if name != "" && name[0] >= '0' && name[0] <= '9' || strings.ContainsAny(name, "/,+%= ") {
 		return "\"" + name + "\""
 	}
 	return name
